@@ -144,7 +144,8 @@ def canon_fields(cs):
 class C09(core.Prop):
     pid = 'C09'
     lean_modules = ['TddaVerif.Props.C09']
-    theorems = []
+    theorems = ['TddaVerif.Props.C09.' + t for t in ['getDate_strDatetime', 'load_dump', 'dump_load_dump', 'same_constraints',
+        'unknown_ignored', 'hash_key_silent', 'stripLines_no_trailing_ws', 'stripLines_id', 'stripLines_lines']]
     quick_n = 300
     thorough_n = 20000
     rule = ('cases: constraint sets in the documented dictionary format: 1..4 fields with unicode / quote / backslash / '
